@@ -15,10 +15,13 @@
     Fourth part (C16_Proofs_Chain.v, C16_Proofs_Angle.v): [rot_chain dim fs] is the model of P = Identity_Matrix(dim); P = P * Rotation_Matrix(alpha_k, dim, axis_k)
     for the list fs of (alpha_k, axis_k), [angle_sum] of sum = 0.0; sum += alpha_k; [proper3 m] = m is 3x3, m^T m = m m^T = 1, det m = 1;
     [axis3_nonzero ax] = ax is a 3-vector with a non-zero component; [along a0 a1 a2 ax] = ax is a positive multiple of (a0, a1, a2);
-    [nonzero_vec a] = some component of the list a is non-zero. *)
+    [nonzero_vec a] = some component of the list a is non-zero.
+    Fifth part (C16_Proofs_Det.v): [mdet] / [mtrace] are the models of the library's own Matrix::Determinant() (recursive Laplace expansion along
+    the first row) and Matrix::Trace(); [rotation_det_trace alpha dim axis] / [rot_chain_det_trace dim fs] = (Determinant(), Trace()) of
+    Rotation_Matrix(alpha, dim, axis) / of the product of the chain fs; [wf_square n m] = m has n rows of n entries. *)
 From Coq Require Import Reals ZArith List.
 From Coquelicot Require Import Coquelicot.
-From LP Require Import Num NumR C16_Model C16_Proofs C16_Proofs_Hist C16_Proofs_Seq C16_Proofs_Chain C16_Proofs_Angle C16_Proofs_HistDir.
+From LP Require Import Num NumR C16_Model C16_Proofs C16_Proofs_Hist C16_Proofs_Seq C16_Proofs_Chain C16_Proofs_Angle C16_Proofs_HistDir C16_Proofs_Det.
 Import ListNotations.
 Local Open Scope R_scope.
 
@@ -424,3 +427,56 @@ Theorem C16_chain_nonvacuous :
    exists v', vhistory ROps Rhypot [3; 0; 4] [VQNorm; VTimes 2; VNormalize; VAddSelf; VDivide 4; VCallRotation 1 3; VCopy] = Ok v').
 Proof. exact (conj ex_chain_axes (conj ex_chain_along (conj ex_angle_general (conj ex_turn ex_direction_history)))). Qed.
 Print Assumptions C16_chain_nonvacuous.
+
+(** ** "determinant one", observed with the library's own Determinant(), and the angle read off with the library's own Trace(). *)
+
+(** Determinant() of Rotation_Matrix is 1 and Trace() is 1 + 2 cos(alpha) (3-D, every non-zero axis) / 2 cos(alpha) (2-D); the same for products of
+    ANY number of rotations (induction over the factors): Determinant() of a product of 3-D rotations about any non-zero axes is 1; for factors along
+    one direction (any lengths) Trace() is 1 + 2 cos(sum of the angles); for 2-D factors Determinant() is 1 and Trace() is 2 cos(sum of the angles) *)
+Theorem C16_determinant_and_trace_by_the_library :
+  (forall alpha a0 a1 a2 : R, nonzero3 a0 a1 a2 -> rotation_det_trace ROps alpha 3 [a0; a1; a2] = Ok (1, 1 + 2 * cos alpha)) /\
+  (forall (alpha : R) (axis : list R), rotation_det_trace ROps alpha 2 axis = Ok (1, 2 * cos alpha)) /\
+  (forall fs : list (R * list R), List.Forall (fun f => axis3_nonzero (snd f)) fs ->
+     exists P t, rot_chain ROps 3 fs = Ok P /\ mdet ROps P = Ok 1 /\ mtrace ROps P = Ok t /\ rot_chain_det_trace ROps 3 fs = Ok (1, t)) /\
+  (forall (a0 a1 a2 : R) (fs : list (R * list R)), nonzero3 a0 a1 a2 -> List.Forall (fun f => along a0 a1 a2 (snd f)) fs ->
+     rot_chain_det_trace ROps 3 fs = Ok (1, 1 + 2 * cos (angle_sum ROps (map fst fs)))) /\
+  (forall fs : list (R * list R), rot_chain_det_trace ROps 2 fs = Ok (1, 2 * cos (angle_sum ROps (map fst fs)))).
+Proof. exact (conj rotation3_det_trace (conj rotation2_det_trace (conj chain3_det_one (conj chain3_same_axis_det_trace chain2_det_trace)))). Qed.
+Print Assumptions C16_determinant_and_trace_by_the_library.
+
+(** for EVERY number type (the doubles of the extracted model included) and EVERY size: Determinant() returns - it never ends the process and the
+    recursion never runs out of fuel - for every well-formed n x n matrix (induction over the recursion depth); Trace() returns for rows = columns;
+    both end the process exactly when rows <> columns *)
+Theorem C16_determinant_trace_guards {T} (Ops : NumOps T) (m : list (list T)) :
+  (forall n, wf_square n m -> exists d, mdet Ops m = Ok d) /\
+  (mrowsn m = mcolsn m -> exists t, mtrace Ops m = Ok t) /\
+  (mrowsn m <> mcolsn m -> mdet Ops m = Exit /\ mtrace Ops m = Exit).
+Proof. exact (mdet_mtrace_guards Ops m). Qed.
+Print Assumptions C16_determinant_trace_guards.
+
+(** "increasing phi moves it around the axis in the right-handed sense" and "compose by adding angles" together, for any number of factors: the product
+    of rotations about one direction (any axis lengths) turns the vector returned for (r, theta, phi) into the one returned for (r, theta, phi + sum) *)
+Theorem C16_rotation_chain_turns_spherical_vector (a0 a1 a2 : R) (fs : list (R * list R)) (r theta phi : R) (P : list (list R)) (u u' : list R) :
+  nonzero3 a0 a1 a2 -> List.Forall (fun f => along a0 a1 a2 (snd f)) fs -> rot_chain ROps 3 fs = Ok P ->
+  spherical_axis ROps Rhypot r theta phi [a0; a1; a2] = Ok u ->
+  spherical_axis ROps Rhypot r theta (phi + angle_sum ROps (map fst fs)) [a0; a1; a2] = Ok u' ->
+  mvec ROps P u = u'.
+Proof. exact (chain_turns_spherical a0 a1 a2 fs r theta phi P u u'). Qed.
+Print Assumptions C16_rotation_chain_turns_spherical_vector.
+
+(** 2-D: the rotation turns EVERY non-zero vector by alpha, measured with the library's own Angle: Angle(v, R v) = Angle(R v, v) = |alpha| for alpha in [-pi, pi] *)
+Theorem C16_rotation2_turns_by_alpha (alpha : R) (axis : list R) (Rm : list (list R)) (v0 v1 : R) :
+  rotation_matrix ROps alpha 2 axis = Ok Rm -> nonzero_vec [v0; v1] -> - PI <= alpha <= PI ->
+  angle ROps [v0; v1] (mvec ROps Rm [v0; v1]) = Ok (Rabs alpha) /\ angle ROps (mvec ROps Rm [v0; v1]) [v0; v1] = Ok (Rabs alpha).
+Proof. exact (rot2_turn_angle alpha axis Rm v0 v1). Qed.
+Print Assumptions C16_rotation2_turns_by_alpha.
+
+(** Non-vacuity: a well-formed 4 x 4 matrix whose Determinant() the model evaluates (to -14) through two levels of the recursion, a non-square shape;
+    a non-zero 2-vector and an angle in [-pi, pi]  (the chain hypotheses are those of C16_chain_nonvacuous) *)
+Theorem C16_determinant_nonvacuous :
+  (wf_square 4 [[1; 2; 3; 4]; [0; 1; 0; 2]; [5; 0; 1; 0]; [0; 0; 0; 1]] /\
+   mdet ROps [[1; 2; 3; 4]; [0; 1; 0; 2]; [5; 0; 1; 0]; [0; 0; 0; 1]] = Ok (-14) /\
+   mrowsn [[1; 2; 3]; [4; 5; 6]] <> mcolsn [[1; 2; 3]; [4; 5; 6]]) /\
+  (nonzero_vec [0; -2] /\ - PI <= 3 <= PI).
+Proof. exact (conj ex_det_square ex_turn2). Qed.
+Print Assumptions C16_determinant_nonvacuous.
